@@ -86,13 +86,14 @@ def build_spec_graphs(sp, weight_form=None, G=None, r=None, directed=False, spon
         pass
     node_w, edge_w = {}, {}
     calls = {'spont': [], 'nbr': []}
-    for a, c, rate in sp['H']:
+    for kH, (a, c, rate) in enumerate(sp['H']):
         a, c = _tup(a), _tup(c)
+        fk = [1.0, 0.4, 2.5, 1.7][kH % 4]        # every transition has its own rate function
         if weight_form == 'label':
             H.add_edge(a, c, rate=rate, weight_label='nw_')
             node_w[(a, c)] = {u: G.nodes[u]['nw_'] for u in G}
         elif weight_form == 'function':
-            tbl = {u: G.nodes[u]['nw_'] * spont_boost for u in G}
+            tbl = {u: G.nodes[u]['nw_'] * spont_boost * fk for u in G}
 
             def rf(Gx, node, _tbl=tbl, boost=1.0, **kw):
                 calls['spont'].append((node, dict(kw, boost=boost)))
@@ -102,8 +103,9 @@ def build_spec_graphs(sp, weight_form=None, G=None, r=None, directed=False, spon
         else:
             H.add_edge(a, c, rate=rate)
             node_w[(a, c)] = None
-    for ab, ac, rate in sp['J']:
+    for kJ, (ab, ac, rate) in enumerate(sp['J']):
         ab, ac = _tup(ab), _tup(ac)
+        gk = [1.0, 0.6, 1.9][kJ % 3]
         if weight_form == 'label':
             J.add_edge(ab, ac, rate=rate, weight_label='ew_')
             w = {}
@@ -118,9 +120,9 @@ def build_spec_graphs(sp, weight_form=None, G=None, r=None, directed=False, spon
             w = {}
             for u, v in G.edges():
                 base = G.edges[u, v]['ew_']
-                w[(u, v)] = nbr_boost * base * G.nodes[u]['nw_'] / (0.25 + G.nodes[v]['nw_'])
+                w[(u, v)] = gk * nbr_boost * base * G.nodes[u]['nw_'] / (0.25 + G.nodes[v]['nw_'])
                 if not directed:
-                    w[(v, u)] = nbr_boost * base * G.nodes[v]['nw_'] / (0.25 + G.nodes[u]['nw_'])
+                    w[(v, u)] = gk * nbr_boost * base * G.nodes[v]['nw_'] / (0.25 + G.nodes[u]['nw_'])
 
             def rf2(Gx, source, target, _w=w, boost=1.0, **kw):
                 calls['nbr'].append((source, target, dict(kw, boost=boost)))
